@@ -2,7 +2,7 @@
 (* producer configurations of C05: content-size class x content type x DER shape of the content x key x issuer shape x serial shape *)
 EXTENDS Integers, TLC, Json
 VARIABLES cfg, done
-Sizes == {0, 1, 55, 56, 64, 4096, 65536}
+Sizes == {0, 1, 20, 32, 55, 56, 64, 4096, 65536}      \* 20, 32: content as long as a SHA-1 / SHA-256 digest is content like any other
 Cts == {"data", "spc", "other", "longoid"}
 Keys == {"k1", "k3072", "k4096"}
 Issuers == {"i1", "multi", "long", "ca", "sig384", "sigpss"}
@@ -12,7 +12,8 @@ Serials == {"b1", "7f", "80", "00ff", "big"}
 Shapes(c, s) == IF c \in {"other", "longoid"} /\ s > 0 THEN {"octets", "seq", "seq2"} ELSE {"octets"}
 (* when the signing runs: on its own; after an earlier signing that failed in the signer; or overlapped - while this call waits in its   *)
 (* signer (a token that takes its time) another complete signing over other content with another key runs from start to end             *)
-Scheds == {"alone", "after_error", "overlapped"}
+(* ... or with a signer that is busy: its first request takes more than a second and fails, the caller asks again                          *)
+Scheds == {"alone", "after_error", "overlapped", "busy"}
 Init == done = FALSE /\ \E s \in Sizes, c \in Cts, k \in Keys, i \in Issuers, r \in Serials, sd \in Scheds : \E sh \in Shapes(c, s) :
           cfg = [size |-> s, ct |-> c, shape |-> sh, key |-> k, issuer |-> i, serial |-> r, sched |-> sd]
 Next == ~done /\ done' = TRUE /\ UNCHANGED cfg
